@@ -71,8 +71,11 @@ Definition classification : list (site_key * order_class) := [
    Argued L_collect_sort "values collected then sort.SliceStable by PeerPubkey = map key (unique)");
   (("smartcontract/service/native/ont/ont.go", "OntInit", "range distribute#0", "7927364f57c6"),
    Argued L_singleton "puts go to one balance key per address (commute); the transfer notifications ARE appended in visiting order, but OntInit only succeeds in the genesis block (total supply must still be zero) and genesis.newGoverningInit builds exactly one (address, ONT_TOTAL_SUPPLY) entry");
-  (("smartcontract/service/native/ontfs/errors.go", "(*Errors).ToString", "range this.ObjectErrors#0", "7fbf2604e475"),
-   Finding "maporder:ontfs-errors-event");
+  (("smartcontract/service/native/ontfs/errors.go", "(*Errors).ToString", "range this.ObjectErrors#0", "ed6a5062fadd"),
+   (* repaired in /repo 859ea035: the loop only collects the keys, sort.Strings follows, entries are written
+      in key order (model A7, c02_ontfs_errors_event_order_free); before the repair the entries were written in
+      visiting order: finding maporder:ontfs-errors-event of this check *)
+   Proved L_collect_sort);
   (("smartcontract/service/native/ontfs/errors.go", "(*Errors).PrintErrors", "range this.ObjectErrors#0", "f74f4f1bb7b8"),
    OffPath "prints to stdout, no caller");
   (* --- EVM state --- *)
